@@ -1,5 +1,5 @@
 SPECIFICATION Spec
-CONSTANT Depth = 3
-CONSTANT Pdks = {"pa", "pb", "pc"}
+CONSTANT Depth = 4
+CONSTANT Pdks = {"pa", "pb"}
 INVARIANT DefaultIsRegistered
 ACTION_CONSTRAINT Emit
